@@ -39,7 +39,7 @@ def setup():
 
 
 KINDS = [('-I', ''), ('-L', ''), ('-D', ''), ('-U', ''), ('-isystem', ''), ('-l', ''), ('-Wl,-rpath,', ''), ('-f', ''),
-         ('lib', '.a'), ('/x/lib', '.so'), ('-D', '.so'), ('-I', '.a'), ('-Wl,-rpath-link,', ''), ('-Wl,-rpath', ''), ('-Wl,-rpath-link', ''), ('-Wl,-l', '')]
+         ('lib', '.a'), ('/x/lib', '.so'), ('-D', '.so'), ('-I', '.a'), ('-Wl,-rpath-link,', ''), ('-Wl,-rpath', ''), ('-Wl,-rpath-link', ''), ('-Wl,-l', ''), ('FW', '.A'), ('x', '.SO'), ('P', '.Lib')]          # the last three: upper-case look-alikes of library suffixes are ordinary arguments
 EXACT = ['-pthread', '-I', '-D', '-c', '-Wl,-rpath-link', '-Wl,-rpath', '-Wl,-rpath,', '-l', '-Wl,--export-dynamic', '-isystem']      # bare option words whose value is the NEXT argument are never de-duplicated
 SMALL = [0, 2, 5, 7, 10]      # kinds used in the longer sequences: -I -D -l -f -D*.so
 
